@@ -23,6 +23,12 @@
   bytes; and the result does change when bytes are appended — so the exemption is necessary.
   `stable_uriparams`, `stable_urihdrs`: the URI parameter / header list wrappers (without the end-of-input option,
   legitimate list = clean unused slots; new and reset lists qualify).
+  Strengthened after the sceptical review (`Sipsp.Proofs.AuditFixA`): the side condition `¬ bodyToEnd flags m'` of
+  `stable_msg` looks only at the flags and at "no Content-Length parsed", so with flags 0 it also excluded every ERROR
+  verdict reached before a Content-Length line — far more than the property's exemption (the body extent of an OK
+  message without Content-Length). `stable_msg_errors`: every definitive verdict other than OK (first-line errors,
+  header errors, empty, missing Content-Length, state error) is stable under ANY appended bytes with NO side condition;
+  `stable_msg_all(_init)`: the side condition is needed for the OK verdict only (`e = OK → ¬ bodyToEnd`).
 -/
 import Sipsp.Proofs.CallID
 import Sipsp.Proofs.UInt
@@ -33,6 +39,7 @@ import Sipsp.Proofs.TokParamL1
 import Sipsp.Proofs.MsgL1Body
 import Sipsp.Proofs.UriListsL
 import Sipsp.Proofs.FLine
+import Sipsp.Proofs.AuditFixA
 
 namespace Sipsp.C03
 open Sipsp
@@ -191,5 +198,18 @@ theorem stable_skipToken : type_of% @Sipsp.skipToken_stable := @Sipsp.skipToken_
 
 /-- `skipLine`: a definitive result is stable -/
 theorem stable_skipLine : type_of% @Sipsp.skipLine_stable := @Sipsp.skipLine_stable
+
+/-! ### every non-OK definitive verdict is stable without side condition (proved in `Sipsp.Proofs.AuditFixA`) -/
+
+/-- **every ERROR verdict of ParseSIPMsg is stable**, whatever the flags (without no-more-data) and whether or not a
+    Content-Length header was seen: first-line errors, header errors, `.empty`, NoCLen, the state error. -/
+theorem stable_msg_errors : type_of% @Sipsp.parseSIPMsg_stable_err := @Sipsp.parseSIPMsg_stable_err
+
+/-- **L1 for ParseSIPMsg, strengthened**: the exemption `bodyToEnd` (body = rest of the buffer) has to be excluded
+    for the verdict OK only; every other definitive verdict is stable unconditionally. -/
+theorem stable_msg_all : type_of% @Sipsp.parseSIPMsg_stable_all := @Sipsp.parseSIPMsg_stable_all
+
+/-- … from any object produced by Init, caller arrays of any capacity (or none) -/
+theorem stable_msg_all_init : type_of% @Sipsp.parseSIPMsg_stable_all_init := @Sipsp.parseSIPMsg_stable_all_init
 
 end Sipsp.C03
